@@ -60,6 +60,10 @@ def sliceFrom (xs : List α) (i : Int) : List α := xs.drop (clampIdx xs.length 
 /-- `xs[:j]` -/
 def sliceTo (xs : List α) (j : Int) : List α := xs.take (clampIdx xs.length j)
 
+/-- `xs[i:j]` for non-negative `i`, `j` (take/drop clamp exactly like Python; `slice_nat` proves
+    this is `slice` on the casts) -/
+def sliceN (xs : List α) (i j : Nat) : List α := (xs.take j).drop i
+
 /-- `xs[i]` for a non-negative index (IndexError when out of range). -/
 def index (xs : List α) (i : Nat) : R α :=
   match xs[i]? with
